@@ -164,6 +164,33 @@ func LoadCorpus(repo string) (*Corpus, error) {
 			}
 		}
 	}
+	// Portuguese documents stored before the move to addons: rate keys such as
+	// "exempt+outlay" are migrated when the document is read. No shipped example
+	// uses them on its lines.
+	if base := c.byName["examples/pt/invoice"]; base != nil && base.Err == "" && !base.IsEnv {
+		for n, keys := range [][]string{{"exempt+outlay", "exempt+intrastate-export"}, {"exempt+outlay", "exempt+outlay"}, {"exempt+consignment", "exempt+reverse-charge+b2b"}} {
+			v, err := ParseJV(base.Src)
+			if err != nil || v.Get("lines") == nil || len(v.Get("lines").A) == 0 {
+				break
+			}
+			ls := v.Get("lines")
+			for len(ls.A) < len(keys) {
+				ls.A = append(ls.A, ls.A[0].Clone())
+			}
+			for i, k := range keys {
+				ls.A[i].Del("uuid")
+				ls.A[i].Set("taxes", &JV{K: 'a', A: []*JV{{K: 'o', M: []JM{{"cat", JStr("VAT")}, {"rate", JStr(k)}}}}})
+			}
+			d := &Doc{Name: fmt.Sprintf("synthetic/pt-invoice-legacy-rate-keys-%d", n+1), Src: v.Encode(nil)}
+			buildDoc(d, len(c.Docs))
+			c.Docs = append(c.Docs, d)
+			c.byName[d.Name] = d
+			if d.Err == "" {
+				c.Valid = append(c.Valid, d)
+				c.Invoices = append(c.Invoices, d)
+			}
+		}
+	}
 	if len(c.Valid) < 10 {
 		msg := ""
 		for _, d := range c.Docs {
